@@ -104,6 +104,7 @@ type FuncCtx struct {
 	defers         []*ast.DeferStmt
 	goDepth        int
 	inQuant        int
+	modDepth       int
 	outstanding    []famInst
 	famOverride    []famInst
 }
@@ -268,6 +269,50 @@ func instantiate(h string, grounds []string, goalIdx []string, out *[]string) {
 	}
 	bv := n.kids[1].kids[0]
 	if len(bv.kids) != 2 || bv.kids[1].String() != "Int" {
+		return
+	}
+	// nested universal quantifiers: instantiate all levels with the goal's skolem constants only
+	if inner := n.kids[2]; inner.isApp("forall") || (inner.isApp("=>") && len(inner.kids) == 3 && inner.kids[2].isApp("forall")) {
+		var sks []string
+		for _, g := range grounds {
+			if strings.HasPrefix(g, "sk!") || strings.HasPrefix(g, "ske!") {
+				sks = append(sks, g)
+			}
+		}
+		if len(sks) == 0 || len(sks) > 6 {
+			return
+		}
+		var rec func(t string, depth int)
+		count := 0
+		rec = func(t string, depth int) {
+			if count > 400 {
+				return
+			}
+			m := parseSx(t)
+			var g2 *sx
+			if m.isApp("=>") && len(m.kids) == 3 && m.kids[2].isApp("forall") {
+				g2 = m.kids[1]
+				m = m.kids[2]
+			}
+			if !m.isApp("forall") || len(m.kids) != 3 || len(m.kids[1].kids) != 1 || depth > 5 {
+				count++
+				if guard != nil {
+					t = "(=> " + guard.String() + " " + t + ")"
+				}
+				*out = append(*out, t)
+				return
+			}
+			v := m.kids[1].kids[0].kids[0].atom
+			b := m.kids[2].String()
+			for _, s := range sks {
+				inst := replaceSym(b, v, s)
+				if g2 != nil {
+					inst = "(=> " + g2.String() + " " + inst + ")"
+				}
+				rec(inst, depth+1)
+			}
+		}
+		rec(n.String(), 0)
 		return
 	}
 	body := n.kids[2].String()
